@@ -110,7 +110,9 @@ fn int_case(ctx: &mut Ctx, width: usize, buf_len: Option<usize>, pushes: &[IPush
                 files.push(std::fs::read(&name).map_err(|e| e.to_string())?);
                 drop(w);
             },
-            CloseMode::Drop => { drop(w); },
+            // Every other time the open writer is dropped by stack unwinding (a panic in the owning scope that is caught
+            // further up): the file must be as complete as after any other drop.
+            CloseMode::Drop => { if k % 2 == 1 { let r = guard(move || { let _owned = w; if std::hint::black_box(true) { panic!("vmon: deliberate panic in a scope that owns an open writer"); } }); if r.is_ok() { return Err("the deliberate panic did not happen".to_string()); } } else { drop(w); } },
             CloseMode::CloseDrop => { w.close().map_err(|e| format!("close: {}", e))?; open.push(w.is_open()); files.push(std::fs::read(&name).map_err(|e| e.to_string())?); drop(w); },
         }
         files.push(std::fs::read(&name).map_err(|e| e.to_string())?);
@@ -231,7 +233,9 @@ fn raw_case(ctx: &mut Ctx, buf_len: Option<usize>, pushes: &[RPush], mode: Close
                 files.push(std::fs::read(&name).map_err(|e| e.to_string())?);
                 drop(w);
             },
-            CloseMode::Drop => { drop(w); },
+            // Every other time the open writer is dropped by stack unwinding (a panic in the owning scope that is caught
+            // further up): the file must be as complete as after any other drop.
+            CloseMode::Drop => { if k % 2 == 1 { let r = guard(move || { let _owned = w; if std::hint::black_box(true) { panic!("vmon: deliberate panic in a scope that owns an open writer"); } }); if r.is_ok() { return Err("the deliberate panic did not happen".to_string()); } } else { drop(w); } },
         }
         files.push(std::fs::read(&name).map_err(|e| e.to_string())?);
         Ok((len, files, open))
